@@ -286,6 +286,9 @@ func blockedSites(bl []string) string {
 		if strings.HasPrefix(b, "harness") || strings.HasPrefix(b, "gostart") {
 			continue
 		}
+		if strings.HasSuffix(b, "/pstmt") || strings.HasSuffix(b, "/stmt") || strings.HasSuffix(b, "/shared") || strings.HasSuffix(b, "/sharedw") {
+			continue // the last pre-emption point of a goroutine says where it was, not what it is blocked on
+		}
 		set[b] = true
 	}
 	return strings.Join(sortedKeys(set), ",")
